@@ -16,9 +16,12 @@ def write_world(w, d, gtf_gz=False, with_meta=True, **gtf_kw):
     return d
 
 
-def std_args(d, out, data_type="nanopore", threads=2, annotated=True, prefix=PREFIX, bam=None, complete=True, extra=()):
+def std_args(d, out, data_type="nanopore", threads=2, annotated=True, prefix=PREFIX, bam=None, complete=True, extra=(), bam_list=None):
     a = ["-o", out, "-d", data_type, "-r", os.path.join(d, "g.fa"), "-t", str(threads), "-p", prefix, "--no_gzip", "--force"]
-    a += ["--bam"] + (bam if bam else [os.path.join(d, "r.bam")])
+    if bam_list:
+        a += ["--bam_list", bam_list]           # several experiments in one run; outputs in <out>/<experiment name>/
+    else:
+        a += ["--bam"] + (bam if bam else [os.path.join(d, "r.bam")])
     if annotated:
         a += ["-g", os.path.join(d, "a.gtf")]
         if complete:
@@ -65,6 +68,20 @@ class Outputs:
 def run(d, out, home=None, mon=None, cfg=None, events=None, hashseed="0", timeout=600, **kw):
     home = home or os.path.join(d, "home")
     return runner.run_isoquant(std_args(d, out, **kw), home, mon=mon, cfg=cfg, events=events, hashseed=hashseed, timeout=timeout)
+
+
+def write_experiments(w, d, names, reads_of, fname="exps.list"):
+    """Splits the reads of world w into one BAM per experiment (reads_of(i, read) -> bool) and writes a --bam_list file with a
+    #name block per experiment.  Returns (list path, {name: reads})."""
+    per = {}
+    with open(os.path.join(d, fname), "w") as f:
+        for i, name in enumerate(names):
+            rs = [r for k, r in enumerate(w.reads) if reads_of(i, k, r)]
+            per[name] = rs
+            bp = os.path.join(d, "exp_%s.bam" % name)
+            w.write_bam(bp, reads=rs)
+            f.write("#%s\n%s\n" % (name, bp))
+    return os.path.join(d, fname), per
 
 
 def fail_text(r, n=600):
